@@ -485,9 +485,9 @@ pub fn run(kv: &Args) -> i32 {
         }
         // ---- seeded random matrices, n = 1..8
         let mut r = rng(seed, "c20-random");
-        let mult = if kv.thorough() { 8 } else { 1 };
+        let mult = if kv.thorough() { 5 } else { 1 };
         for n in 1..=8usize {
-            let per_kind = match n { 1 => 2 * mult, 2..=3 => 6 * mult, 4 => 4 * mult, 5..=6 => mult, _ => if kv.thorough() { 3 } else { 1 } };
+            let per_kind = match n { 1 => 2 * mult, 2..=3 => 6 * mult, 4 => 4 * mult, 5..=6 => mult, _ => if kv.thorough() { 2 } else { 1 } };
             for kind in KINDS.iter() {
                 for _ in 0..per_kind {
                     cases.push((kind.to_string(), n, gen_matrix(&mut r, kind, n)));
